@@ -303,6 +303,8 @@ class Interp:
             return s.intr.call_arr_method(s, f.val, f.name, args, kw)
         if isinstance(f, PyCallable):
             return f.fn(*args, **kw)
+        if isinstance(f, Obj):
+            return s.call(s.getattr(f, "__call__"), args, kw)
         if f is None:
             raise PyRaise("TypeError", "'NoneType' object is not callable", s.site)
         raise Undecided(f"call of {type(f).__name__}")
